@@ -44,8 +44,14 @@ def config_strategy():
             "nums": st.lists(num, max_size=8, unique_by=lambda t: t[0]),
             "tail_random": st.booleans(),
             "seed": st.integers(0, 2**32 - 1),
-            "keylen": st.one_of(st.integers(2, 256), st.sampled_from([2, 3, 4, 15, 16, 31, 32, 64, 128, 255, 256])),
+            # (Hypothesis draws small integers far more often: the second branch spreads the same range evenly)
+            # and about 40 % of Hypothesis' examples repeat an earlier prefix with an all-simplest tail: the simplest key
+            # length is therefore a long one, not 2)
+            "keylen": st.one_of(st.sampled_from([200, 143, 129, 256, 255, 128, 64, 32, 31, 16, 15, 4, 3, 2]), st.integers(0, 254).map(lambda n: 2 + (n * 97 + 198) % 255), st.integers(2, 256)),
             "key_printable": st.booleans(),
+            # request a tie for first place between the padding block and a repeated block; "long_key" also moves the key
+            # length to 129-256 (no multiple of it is searched, so nothing else can break the tie) and drops faults
+            "tie": st.sampled_from([None, None, "any", "long_key", "long_key"]),
             # structure inside the key: a border (prefix == suffix, e.g. "host-…-host"), a repeated unit, almost periodic
             "key_shape": st.one_of(st.just(["random"]), st.tuples(st.sampled_from(["border", "periodic", "near_periodic"]), st.integers(1, 64)).map(list)),
             "options": st.lists(st.sampled_from([G.GUARD_USER, G.GUARD_COMPUTER, G.GUARD_DOMAIN, G.GUARD_LOCAL_IP]), min_size=1, max_size=4, unique=True),
@@ -92,6 +98,8 @@ def build_plain(case, rnd):
 def execute(case, stats):
     from dissect.cobaltstrike.beacon import BeaconConfig
 
+    if case.get("tie") == "long_key":
+        case = dict(case, keylen=129 + case["keylen"] % 128, tail_random=False, fault=None)
     rnd = random.Random(case["seed"])
     plain, settings = build_plain(case, rnd)
     K = case["keylen"]
@@ -112,7 +120,25 @@ def execute(case, stats):
         raise Discard("constant key stream over the header")
     if b"\x00" in key and K <= 4:
         key = bytes(b or 1 for b in key)
-    if not G.zero_gram_is_top(plain, K):
+    tie = False
+    if case.get("tie") and not case["tail_random"] and K >= 16:
+        # a value made of one repeated byte that fills exactly as many aligned K-byte blocks as remain zero padding: the
+        # zero block shares first place with another block (both of the two most common blocks are tried as keys)
+        o = len(tlv.encode(settings, terminator=False)) + 6
+        a = -(-o // K) * K
+        T = (G.CONFIG_SIZE - a) // K
+        # aligned all-zero blocks inside the settings before the new value (NUL-padded fields) count as padding too
+        head = tlv.encode(settings, terminator=False)
+        r = sum(1 for i in range(0, a - K + 1, K) if not any(head[i : i + K]) and i + K <= len(head))
+        if T >= 4 and (T + r) % 2 == 0 and o < 3000:
+            cand = settings + [(32, PTR, b"\x90" * ((a - o) + ((T + r) // 2) * K))]
+            body = tlv.encode(cand, terminator=True)
+            if len(body) <= G.CONFIG_SIZE:
+                cplain = body + b"\x00" * (G.CONFIG_SIZE - len(body))
+                top = G.top_grams(cplain, K, 2, key)
+                if len(top) == 2 and top[0][1] == top[1][1]:
+                    tie, settings, plain = True, cand, cplain
+    if not G.zero_gram_findable(plain, K, key):
         raise Discard("zero block is not the most frequent aligned block for this key length")
     options = [(o, case["optvals"][i]) for i, o in enumerate(case["options"])]
     fault = case["fault"]
@@ -201,7 +227,7 @@ def execute(case, stats):
     stats.note(
         case,
         (K != 15 and len(options) >= 2) or fault is not None,
-        classes=["marker_near_8k_boundary" if (off + G.CONFIG_SIZE) % 8192 < 16 or (off + G.CONFIG_SIZE) % 8192 > 8176 else "marker_elsewhere", "keylen_%s" % ("2-8" if K <= 8 else "9-32" if K <= 32 else "33-128" if K <= 128 else "129-256"), "container_" + container, "decoy_markers_%d" % ndecoys, "key_" + shape[0], "fault_" + str(fault), "options%d" % len(options), "first_option_%d" % options[0][0]],
+        classes=["marker_near_8k_boundary" if (off + G.CONFIG_SIZE) % 8192 < 16 or (off + G.CONFIG_SIZE) % 8192 > 8176 else "marker_elsewhere", "keylen_%s" % ("2-8" if K <= 8 else "9-32" if K <= 32 else "33-128" if K <= 128 else "129-256"), "container_" + container, "top_block_tie" if tie else "zero_block_strictly_top", "decoy_markers_%d" % ndecoys, "key_" + shape[0], "fault_" + str(fault), "options%d" % len(options), "first_option_%d" % options[0][0]],
     )
 
 
